@@ -28,7 +28,9 @@ import (
 	simapp "github.com/provenance-io/provenance/app"
 	"github.com/provenance-io/provenance/x/attribute"
 	attrtypes "github.com/provenance-io/provenance/x/attribute/types"
+	"github.com/provenance-io/provenance/internal/pioconfig"
 	"github.com/provenance-io/provenance/x/exchange"
+	exchangekeeper "github.com/provenance-io/provenance/x/exchange/keeper"
 )
 
 type c20Coin struct {
@@ -46,6 +48,8 @@ type c20Market struct {
 	SellerRatios, BuyerRatios                              []c20Ratio
 	AccOrders, UserSettle, AccCommit                       bool
 	ReqAsk, ReqBid, ReqCom                                 []string
+	Bips                                                   int64
+	Interm                                                 string
 }
 
 func (c c20Coin) sdk() sdk.Coin  { return sdk.Coin{Denom: c.D, Amount: sdkmath.NewIntFromBigInt(c.A)} }
@@ -120,7 +124,8 @@ func (m c20Market) coq() string {
 		"; m_accepting_commitments := " + coqBool(m.AccCommit) +
 		"; m_req_ask := " + c20CoqStrs(m.ReqAsk) +
 		"; m_req_bid := " + c20CoqStrs(m.ReqBid) +
-		"; m_req_com := " + c20CoqStrs(m.ReqCom) + " |}"
+		"; m_req_com := " + c20CoqStrs(m.ReqCom) +
+		"; m_bips := " + zI64(m.Bips) + "; m_interm := " + coqStr(m.Interm) + " |}"
 }
 
 func (m c20Market) desc() map[string]any {
@@ -137,10 +142,11 @@ func (m c20Market) desc() map[string]any {
 		"seller_ratios": rs(m.SellerRatios), "buyer_flat": c20StrCoins(m.BuyerFlat), "buyer_ratios": rs(m.BuyerRatios),
 		"accepting_orders": m.AccOrders, "allow_user_settlement": m.UserSettle, "accepting_commitments": m.AccCommit,
 		"req_attr_ask": m.ReqAsk, "req_attr_bid": m.ReqBid, "req_attr_commitment": m.ReqCom,
+		"commitment_settlement_bips": m.Bips, "intermediary_denom": m.Interm,
 	}
 }
 
-func (m c20Market) sdk() exchange.Market {
+func (m c20Market) sdk(admin string) exchange.Market {
 	rs := func(l []c20Ratio) []exchange.FeeRatio {
 		var out []exchange.FeeRatio
 		for _, r := range l {
@@ -163,6 +169,9 @@ func (m c20Market) sdk() exchange.Market {
 		ReqAttrCreateAsk:          m.ReqAsk,
 		ReqAttrCreateBid:          m.ReqBid,
 		ReqAttrCreateCommitment:   m.ReqCom,
+		CommitmentSettlementBips:  uint32(m.Bips),
+		IntermediaryDenom:         m.Interm,
+		AccessGrants:              []exchange.AccessGrant{{Address: admin, Permissions: exchange.AllPermissions()}},
 	}
 }
 
@@ -299,6 +308,15 @@ func c20GenMarket(r *rand.Rand, w *CaseWriter) c20Market {
 		AccOrders: r.Intn(8) != 0, UserSettle: r.Intn(6) != 0, AccCommit: r.Intn(8) != 0,
 		ReqAsk: c20ReqList(r, w), ReqBid: c20ReqList(r, w), ReqCom: c20ReqList(r, w),
 	}
+	if r.Intn(3) == 0 {
+		m.Bips = []int64{1, 25, 50, 300, 10000}[r.Intn(5)]
+	}
+	switch r.Intn(4) {
+	case 0:
+		m.Interm = c20ChainFeeDenom
+	case 1:
+		m.Interm = "interm"
+	}
 	np := []int{0, 1, 1, 2}[r.Intn(4)]
 	perm := r.Perm(len(c20PriceDenoms))
 	for i := 0; i < np; i++ {
@@ -306,7 +324,7 @@ func c20GenMarket(r *rand.Rand, w *CaseWriter) c20Market {
 		// seller: price denom -> same denom, fee <= price
 		rp := c20Amount(r)
 		var rf *big.Int
-		switch r.Intn(6) {
+		switch r.Intn(9) {
 		case 0:
 			rf = new(big.Int).Set(rp) // 1:1, no ask price can cover it
 		case 1:
@@ -467,18 +485,29 @@ func c20ReadAttrs(t *testing.T, app *simapp.App, ctx sdk.Context, addr sdk.AccAd
 	return out
 }
 
+// c20ChainFeeDenom is the chain's fee denom (pioconfig), set by TestC20 before markets are generated.
+var c20ChainFeeDenom = "nhash"
+
 func TestC20(t *testing.T) {
 	r := newRand("C20")
-	w := NewCaseWriter("C20", "PV.Corr.C20", "check_all", scale(12, 40))
+	w := NewCaseWriter("C20", "PV.Corr.C20", "check_all", scale(6, 40))
 	app, baseCtx := newApp(t)
 	t0 := time.Date(2026, 1, 1, 12, 0, 0, 0, time.UTC)
 	baseCtx = baseCtx.WithBlockTime(t0)
 	k := app.ExchangeKeeper
+	qs := exchangekeeper.NewQueryServer(k)
 	authority := k.GetAuthority()
+	c20ChainFeeDenom = pioconfig.GetProvenanceConfig().FeeDenom
+	feeDenom := c20ChainFeeDenom
 	type desc map[string]any
 
 	handle := func(ctx sdk.Context, msg sdk.Msg) error {
 		return try(func() error {
+			if vb, ok := msg.(interface{ ValidateBasic() error }); ok {
+				if err := vb.ValidateBasic(); err != nil {
+					return err
+				}
+			}
 			h := app.MsgServiceRouter().Handler(msg)
 			if h == nil {
 				return fmt.Errorf("no handler for %T", msg)
@@ -498,7 +527,7 @@ func TestC20(t *testing.T) {
 	}
 	var rich sdk.Coins
 	big30 := sdkmath.NewIntFromBigInt(new(big.Int).Exp(c20Big(10), c20Big(62), nil))
-	for _, d := range c20AllDenoms {
+	for _, d := range append(append([]string{}, c20AllDenoms...), feeDenom, "interm", "aaaa") {
 		rich = rich.Add(sdk.NewCoin(d, big30))
 	}
 	nAcct := 10 + len(c20SmallSets)
@@ -561,7 +590,18 @@ func TestC20(t *testing.T) {
 		}
 		accts = append(accts, c20Acct{addr: a})
 	}
+	// the market administrator (holds every name; granted every permission in every market)
+	maker := addrN(950)
+	ensureAccount(app, baseCtx, maker)
+	fund(t, app, baseCtx, maker, rich)
+	for _, n := range c20Names {
+		c20SetAttr(t, app, baseCtx, owner, maker, n)
+	}
+	makerIdx := len(accts)
+	accts = append(accts, c20Acct{addr: maker})
 	nAcct = len(accts)
+	stranger := addrN(960) // no permission anywhere
+	ensureAccount(app, baseCtx, stranger)
 	// The three situations in which admission is probed: at the time the attributes were set; two
 	// hours later without the attribute module's begin-blocker having run (expired records are
 	// still stored); two hours later after it ran (expired records purged).  The model is told
@@ -579,28 +619,29 @@ func TestC20(t *testing.T) {
 		}
 		w.CountN("attribute_records_"+phaseNames[ph], func() int64 {
 			n := 0
-			for _, a := range phaseAccts[ph][firstExp:] {
+			for _, a := range phaseAccts[ph][firstExp:makerIdx] {
 				n += len(a.attrs)
 			}
 			return int64(n)
 		}())
 	}
-	maker := addrN(950)
-	ensureAccount(app, baseCtx, maker)
-	fund(t, app, baseCtx, maker, rich)
-	for _, n := range c20Names {
-		c20SetAttr(t, app, baseCtx, owner, maker, n)
-	}
 	pickAcct := func() c20Acct {
 		switch r.Intn(10) {
-		case 0, 1, 2:
+		case 0, 1, 2, 3, 4:
 			return accts[0]
-		case 3, 4, 5:
+		case 5:
 			return accts[1+r.Intn(1+len(c20SmallSets))] // none, one or two attributes
 		case 6, 7:
-			return accts[firstExp+r.Intn(nAcct-firstExp)] // repeated names, expiring records
+			return accts[firstExp+r.Intn(makerIdx-firstExp)] // repeated names, expiring records
 		}
-		return accts[r.Intn(nAcct)]
+		return accts[r.Intn(makerIdx)]
+	}
+	toPtr := func(c *c20Coin) *sdk.Coin {
+		if c == nil {
+			return nil
+		}
+		s := c.sdk()
+		return &s
 	}
 
 	probeKeys := map[string]struct{}{}
@@ -619,11 +660,8 @@ func TestC20(t *testing.T) {
 			}
 			return false
 		})
-		msg := &exchange.MsgGovCreateMarketRequest{Authority: authority, Market: m.sdk()}
-		err := try(func() error { return msg.ValidateBasic() })
-		if err == nil {
-			err = handle(mctx, msg)
-		}
+		msg := &exchange.MsgGovCreateMarketRequest{Authority: authority, Market: m.sdk(maker.String())}
+		err := handle(mctx, msg)
 		created := err == nil
 		marketID := uint32(4_000_000) // unknown id when the market was not created
 		if created {
@@ -649,265 +687,260 @@ func TestC20(t *testing.T) {
 			pdescs = append(pdescs, d)
 			w.Count("probes")
 		}
+		m0 := m // the market as created; m follows the changes made below (read back from the keeper)
 
 		// ---- flat fee validators: nil, every option at -1/0/+1, a foreign denom ----
-		flatKinds := []struct {
-			name string
-			opts []c20Coin
-			f    func(sdk.Context, uint32, *sdk.Coin) error
-		}{
-			{"KCreateAsk", m.CreateAsk, k.ValidateCreateAskFlatFee},
-			{"KCreateBid", m.CreateBid, k.ValidateCreateBidFlatFee},
-			{"KCreateCom", m.CreateCom, k.ValidateCreateCommitmentFlatFee},
-			{"KSellerFlat", m.SellerFlat, k.ValidateSellerSettlementFlatFee},
-		}
-		for _, fk := range flatKinds {
-			fees := []*c20Coin{nil, {c20AllDenoms[r.Intn(len(c20AllDenoms))], c20Amount(r)}}
-			for _, o := range fk.opts {
-				for _, dlt := range []int64{-1, 0, 1} {
-					a := new(big.Int).Add(o.A, c20Big(dlt))
-					if a.Sign() >= 0 {
-						fees = append(fees, &c20Coin{o.D, a})
+		probeFlats := func(light bool) {
+			flatKinds := []struct {
+				name string
+				opts []c20Coin
+				f    func(sdk.Context, uint32, *sdk.Coin) error
+			}{
+				{"KCreateAsk", m.CreateAsk, k.ValidateCreateAskFlatFee},
+				{"KCreateBid", m.CreateBid, k.ValidateCreateBidFlatFee},
+				{"KCreateCom", m.CreateCom, k.ValidateCreateCommitmentFlatFee},
+				{"KSellerFlat", m.SellerFlat, k.ValidateSellerSettlementFlatFee},
+			}
+			for _, fk := range flatKinds {
+				fees := []*c20Coin{nil}
+				if !light || r.Intn(3) == 0 {
+					fees = append(fees, &c20Coin{c20AllDenoms[r.Intn(len(c20AllDenoms))], c20Amount(r)})
+				}
+				for _, o := range fk.opts {
+					for _, dlt := range []int64{-1, 0, 1} {
+						if light && dlt == 1 {
+							continue
+						}
+						a := new(big.Int).Add(o.A, c20Big(dlt))
+						if a.Sign() >= 0 {
+							fees = append(fees, &c20Coin{o.D, a})
+						}
 					}
 				}
-			}
-			for _, fee := range fees {
-				var sc *sdk.Coin
-				if fee != nil {
-					c := fee.sdk()
-					sc = &c
-				}
-				e := try(func() error { return fk.f(mctx, marketID, sc) })
-				addProbe("PFlat "+fk.name+" "+c20CoqOptCoin(fee)+" "+coqBool(e == nil),
-					desc{"probe": "ValidateFlatFee", "kind": fk.name, "fee": c20OptStr(fee), "ok": e == nil})
-				w.Count("flat_probes")
-				if e == nil {
-					w.Count("flat_probes_accepted")
-				}
-				if len(fk.opts) > 0 && fee != nil {
-					probeKey(fmt.Sprintf("flat/%v/%s", c20StrCoins(fk.opts), fee))
+				for _, fee := range fees {
+					var sc *sdk.Coin
+					if fee != nil {
+						c := fee.sdk()
+						sc = &c
+					}
+					e := try(func() error { return fk.f(mctx, marketID, sc) })
+					addProbe("PFlat "+fk.name+" "+c20CoqOptCoin(fee)+" "+coqBool(e == nil),
+						desc{"probe": "ValidateFlatFee", "kind": fk.name, "fee": c20OptStr(fee), "ok": e == nil})
+					w.Count("flat_probes")
+					if e == nil {
+						w.Count("flat_probes_accepted")
+					}
+					if len(fk.opts) > 0 && fee != nil {
+						probeKey(fmt.Sprintf("flat/%v/%s", c20StrCoins(fk.opts), fee))
+					}
 				}
 			}
 		}
 
-		// ---- buyer settlement fee validator: 0-3 coins at the boundaries, shuffled ----
-		nBuyer := 14
-		for bi := 0; bi < nBuyer; bi++ {
-			var pd string
-			if len(m.BuyerRatios) > 0 && r.Intn(6) != 0 {
-				pd = m.BuyerRatios[r.Intn(len(m.BuyerRatios))].PD
-			} else {
-				pd = c20PriceDenoms[r.Intn(len(c20PriceDenoms))]
-			}
-			price := c20Coin{pd, c20Amount(r)}
-			if r.Intn(12) == 0 {
-				price.A = c20Big(0)
-			}
-			// candidate denoms: those with a flat option or a ratio for pd first
-			var cands []string
-			for _, o := range m.BuyerFlat {
-				cands = append(cands, o.D)
-			}
-			for _, rt := range m.BuyerRatios {
-				if rt.PD == pd {
-					cands = append(cands, rt.FD)
+		// ---- buyer settlement fee validator: 0-3 coins at the boundaries, shuffled; some offers
+		// are not valid sdk.Coins (a denom twice, a zero coin) - the keeper method does not care ----
+		probeBuyer := func(nBuyer int) {
+			for bi := 0; bi < nBuyer; bi++ {
+				var pd string
+				if len(m.BuyerRatios) > 0 && r.Intn(6) != 0 {
+					pd = m.BuyerRatios[r.Intn(len(m.BuyerRatios))].PD
+				} else {
+					pd = c20PriceDenoms[r.Intn(len(c20PriceDenoms))]
 				}
-			}
-			cands = append(cands, c20AllDenoms[r.Intn(len(c20AllDenoms))])
-			n := []int{0, 1, 1, 2, 2, 2, 3, 3}[r.Intn(8)]
-			seen := map[string]bool{}
-			var fee []c20Coin
-			for j := 0; j < n; j++ {
-				d := cands[r.Intn(len(cands))]
-				if seen[d] {
-					d = c20AllDenoms[r.Intn(len(c20AllDenoms))]
-					if seen[d] {
-						continue
+				price := c20Coin{pd, c20Amount(r)}
+				if r.Intn(12) == 0 {
+					price.A = c20Big(0)
+				}
+				// candidate denoms: those with a flat option or a ratio for pd first
+				var cands []string
+				for _, o := range m.BuyerFlat {
+					cands = append(cands, o.D)
+				}
+				for _, rt := range m.BuyerRatios {
+					if rt.PD == pd {
+						cands = append(cands, rt.FD)
 					}
 				}
-				seen[d] = true
-				f := c20FindFlat(m.BuyerFlat, d)
-				var rr *big.Int
-				if rt := c20FindRatio(m.BuyerRatios, pd, d); rt != nil {
-					rr = c20Ceil(price.A, rt.FA, rt.PA)
+				cands = append(cands, c20AllDenoms[r.Intn(len(c20AllDenoms))])
+				n := []int{0, 1, 1, 2, 2, 2, 3, 3}[r.Intn(8)]
+				dupOK := r.Intn(8) == 0 // the same denom may come twice
+				seen := map[string]bool{}
+				var fee []c20Coin
+				for j := 0; j < n; j++ {
+					d := cands[r.Intn(len(cands))]
+					if seen[d] && !dupOK {
+						d = c20AllDenoms[r.Intn(len(c20AllDenoms))]
+						if seen[d] {
+							continue
+						}
+					}
+					if seen[d] {
+						w.Count("buyer_fee_probes_with_repeated_denom")
+					}
+					seen[d] = true
+					f := c20FindFlat(m.BuyerFlat, d)
+					var rr *big.Int
+					if rt := c20FindRatio(m.BuyerRatios, pd, d); rt != nil {
+						rr = c20Ceil(price.A, rt.FA, rt.PA)
+					}
+					var bases []*big.Int
+					if f != nil {
+						bases = append(bases, f)
+					}
+					if rr != nil {
+						bases = append(bases, rr)
+					}
+					if f != nil && rr != nil {
+						s := new(big.Int).Add(f, rr)
+						bases = append(bases, s, s) // the summed requirement twice as likely
+					}
+					var a *big.Int
+					if len(bases) == 0 || r.Intn(10) == 0 {
+						a = c20Amount(r)
+					} else {
+						a = new(big.Int).Add(bases[r.Intn(len(bases))], c20Big(int64(r.Intn(3)-1)))
+					}
+					if a.Sign() < 0 {
+						a = c20Big(0)
+					}
+					fee = append(fee, c20Coin{d, a})
 				}
-				var bases []*big.Int
-				if f != nil {
-					bases = append(bases, f)
+				r.Shuffle(len(fee), func(i, j int) { fee[i], fee[j] = fee[j], fee[i] })
+				e := try(func() error {
+					return k.ValidateBuyerSettlementFee(mctx, marketID, price.sdk(), sdk.Coins(c20Coins(fee)))
+				})
+				addProbe("PBuyer "+price.coq()+" "+c20CoqCoins(fee)+" "+coqBool(e == nil),
+					desc{"probe": "ValidateBuyerSettlementFee", "price": price.String(), "fee": c20StrCoins(fee), "ok": e == nil})
+				w.Count("buyer_fee_probes")
+				w.Count(fmt.Sprintf("buyer_fee_probes_%d_coins", len(fee)))
+				if e == nil {
+					w.Count("buyer_fee_probes_accepted")
 				}
-				if rr != nil {
-					bases = append(bases, rr)
+				if created && (len(m.BuyerFlat) > 0 || len(m.BuyerRatios) > 0) && len(fee) > 0 {
+					probeKey(fmt.Sprintf("buyer/%v/%v/%s/%v", c20StrCoins(m.BuyerFlat), m.BuyerRatios, price, c20StrCoins(fee)))
 				}
-				if f != nil && rr != nil {
-					s := new(big.Int).Add(f, rr)
-					bases = append(bases, s, s) // the summed requirement twice as likely
+				if created && len(m.BuyerFlat) > 0 && len(m.BuyerRatios) > 0 {
+					w.Count("buyer_fee_probes_flat_and_ratio_required")
 				}
-				var a *big.Int
-				if len(bases) == 0 || r.Intn(10) == 0 {
-					a = c20Amount(r)
-				} else {
-					a = new(big.Int).Add(bases[r.Intn(len(bases))], c20Big(int64(r.Intn(3)-1)))
-				}
-				if a.Sign() < 0 {
-					a = c20Big(0)
-				}
-				fee = append(fee, c20Coin{d, a})
-			}
-			r.Shuffle(len(fee), func(i, j int) { fee[i], fee[j] = fee[j], fee[i] })
-			e := try(func() error {
-				return k.ValidateBuyerSettlementFee(mctx, marketID, price.sdk(), sdk.Coins(c20Coins(fee)))
-			})
-			addProbe("PBuyer "+price.coq()+" "+c20CoqCoins(fee)+" "+coqBool(e == nil),
-				desc{"probe": "ValidateBuyerSettlementFee", "price": price.String(), "fee": c20StrCoins(fee), "ok": e == nil})
-			w.Count("buyer_fee_probes")
-			w.Count(fmt.Sprintf("buyer_fee_probes_%d_coins", len(fee)))
-			if e == nil {
-				w.Count("buyer_fee_probes_accepted")
-			}
-			if created && (len(m.BuyerFlat) > 0 || len(m.BuyerRatios) > 0) && len(fee) > 0 {
-				probeKey(fmt.Sprintf("buyer/%v/%v/%s/%v", c20StrCoins(m.BuyerFlat), m.BuyerRatios, price, c20StrCoins(fee)))
-			}
-			if created && len(m.BuyerFlat) > 0 && len(m.BuyerRatios) > 0 {
-				w.Count("buyer_fee_probes_flat_and_ratio_required")
 			}
 		}
 
 		// ---- ask price validator around the point where the price stops covering the fees ----
-		nAsk := 8
-		for ai := 0; ai < nAsk; ai++ {
-			var pd string
-			if len(m.SellerRatios) > 0 && r.Intn(6) != 0 {
-				pd = m.SellerRatios[r.Intn(len(m.SellerRatios))].PD
-			} else {
-				pd = c20PriceDenoms[r.Intn(len(c20PriceDenoms))]
-			}
-			var flat *c20Coin
-			switch r.Intn(4) {
-			case 0:
-			case 1:
-				flat = &c20Coin{pd, c20Amount(r)}
-			default:
-				if len(m.SellerFlat) > 0 {
-					o := m.SellerFlat[r.Intn(len(m.SellerFlat))]
-					flat = &c20Coin{o.D, new(big.Int).Set(o.A)}
+		probeAskPrice := func(nAsk int) {
+			for ai := 0; ai < nAsk; ai++ {
+				var pd string
+				if len(m.SellerRatios) > 0 && r.Intn(6) != 0 {
+					pd = m.SellerRatios[r.Intn(len(m.SellerRatios))].PD
 				} else {
-					flat = &c20Coin{pd, c20Big(r.Int63n(30))}
+					pd = c20PriceDenoms[r.Intn(len(c20PriceDenoms))]
 				}
-			}
-			// the threshold: smallest p with p > flat + ceil(p*rf/rp), about flat*rp/(rp-rf)
-			fa := c20Big(0)
-			if flat != nil && flat.D == pd {
-				fa = flat.A
-			}
-			base := new(big.Int).Set(fa)
-			if rt := c20FindRatio(m.SellerRatios, pd, pd); rt != nil && rt.PA.Cmp(rt.FA) > 0 {
-				d := new(big.Int).Sub(rt.PA, rt.FA)
-				base = new(big.Int).Quo(new(big.Int).Mul(fa, rt.PA), d)
-			}
-			var pa *big.Int
-			if r.Intn(5) == 0 {
-				pa = c20Amount(r)
-			} else {
-				pa = new(big.Int).Add(base, c20Big(int64(r.Intn(7)-2)))
-			}
-			if pa.Sign() < 0 {
-				pa = c20Big(0)
-			}
-			price := c20Coin{pd, pa}
-			var sc *sdk.Coin
-			if flat != nil {
-				c := flat.sdk()
-				sc = &c
-			}
-			e := try(func() error { return k.ValidateAskPrice(mctx, marketID, price.sdk(), sc) })
-			addProbe("PAskPrice "+price.coq()+" "+c20CoqOptCoin(flat)+" "+coqBool(e == nil),
-				desc{"probe": "ValidateAskPrice", "price": price.String(), "flat": c20OptStr(flat), "ok": e == nil})
-			w.Count("ask_price_probes")
-			if e == nil {
-				w.Count("ask_price_probes_accepted")
-			}
-			if created && (len(m.SellerRatios) > 0 || fa.Sign() > 0) {
-				probeKey(fmt.Sprintf("askprice/%v/%s/%s", m.SellerRatios, price, c20OptStr(flat)))
-			}
-		}
-
-		// ---- CanCreateAsk / CanCreateBid / CanCreateCommitment for every account ----
-		canKinds := []struct {
-			name string
-			reqs []string
-			f    func(sdk.Context, uint32, sdk.AccAddress) bool
-		}{
-			{"RAsk", m.ReqAsk, k.CanCreateAsk}, {"RBid", m.ReqBid, k.CanCreateBid}, {"RCom", m.ReqCom, k.CanCreateCommitment},
-		}
-		for _, ck := range canKinds {
-			if len(ck.reqs) == 0 && r.Intn(4) != 0 {
-				continue
-			}
-			for _, a := range accts {
-				var ok bool
-				e := try(func() error { ok = ck.f(mctx, marketID, a.addr); return nil })
-				ok = ok && e == nil
-				addProbe("PCan "+ck.name+" "+c20CoqStrs(a.attrs)+" "+coqBool(ok),
-					desc{"probe": "CanCreate", "kind": ck.name, "account_attrs": a.attrs, "ok": ok})
-				w.Count("can_create_probes")
-				if ok {
-					w.Count("can_create_probes_allowed")
-					if created && len(ck.reqs) > 0 && ph == 1 && a.addr.Equals(accts[onlyExpiring].addr) {
-						w.Count("observation_allowed_on_expired_unswept_records_only")
-					}
-					if len(ck.reqs) > 0 && len(a.attrs) < len(ck.reqs) {
-						w.Count("can_create_allowed_with_fewer_attrs_than_reqs_" + ck.name)
+				var flat *c20Coin
+				switch r.Intn(4) {
+				case 0:
+				case 1:
+					flat = &c20Coin{pd, c20Amount(r)}
+				default:
+					if len(m.SellerFlat) > 0 {
+						o := m.SellerFlat[r.Intn(len(m.SellerFlat))]
+						flat = &c20Coin{o.D, new(big.Int).Set(o.A)}
+					} else {
+						flat = &c20Coin{pd, c20Big(r.Int63n(30))}
 					}
 				}
-				if created && len(ck.reqs) > 0 {
-					probeKey(fmt.Sprintf("can/%v/%v", ck.reqs, a.attrs))
+				// the threshold: smallest p with p > flat + ceil(p*rf/rp), about flat*rp/(rp-rf)
+				fa := c20Big(0)
+				if flat != nil && flat.D == pd {
+					fa = flat.A
+				}
+				base := new(big.Int).Set(fa)
+				if rt := c20FindRatio(m.SellerRatios, pd, pd); rt != nil && rt.PA.Cmp(rt.FA) > 0 {
+					d := new(big.Int).Sub(rt.PA, rt.FA)
+					base = new(big.Int).Quo(new(big.Int).Mul(fa, rt.PA), d)
+				}
+				var pa *big.Int
+				if r.Intn(5) == 0 {
+					pa = c20Amount(r)
+				} else {
+					pa = new(big.Int).Add(base, c20Big(int64(r.Intn(7)-2)))
+				}
+				if pa.Sign() < 0 {
+					pa = c20Big(0)
+				}
+				price := c20Coin{pd, pa}
+				var sc *sdk.Coin
+				if flat != nil {
+					c := flat.sdk()
+					sc = &c
+				}
+				e := try(func() error { return k.ValidateAskPrice(mctx, marketID, price.sdk(), sc) })
+				addProbe("PAskPrice "+price.coq()+" "+c20CoqOptCoin(flat)+" "+coqBool(e == nil),
+					desc{"probe": "ValidateAskPrice", "price": price.String(), "flat": c20OptStr(flat), "ok": e == nil})
+				w.Count("ask_price_probes")
+				if e == nil {
+					w.Count("ask_price_probes_accepted")
+				}
+				if created && (len(m.SellerRatios) > 0 || fa.Sign() > 0) {
+					probeKey(fmt.Sprintf("askprice/%v/%s/%s", m.SellerRatios, price, c20OptStr(flat)))
 				}
 			}
 		}
 
-		// ---- counter orders for the fill endpoints (a maker that holds every attribute) ----
-		var makerBid, makerAsk uint64
-		var makerBidPrice, makerAskPrice c20Coin
+		// ---- CanCreateAsk / CanCreateBid / CanCreateCommitment ----
+		probeCan := func(every bool) {
+			canKinds := []struct {
+				name string
+				reqs []string
+				f    func(sdk.Context, uint32, sdk.AccAddress) bool
+			}{
+				{"RAsk", m.ReqAsk, k.CanCreateAsk}, {"RBid", m.ReqBid, k.CanCreateBid}, {"RCom", m.ReqCom, k.CanCreateCommitment},
+			}
+			for _, ck := range canKinds {
+				if len(ck.reqs) == 0 && r.Intn(4) != 0 {
+					continue
+				}
+				for ai, a := range accts[:makerIdx] {
+					if !every && ai > 1 && r.Intn(3) != 0 {
+						continue
+					}
+					var ok bool
+					e := try(func() error { ok = ck.f(mctx, marketID, a.addr); return nil })
+					ok = ok && e == nil
+					addProbe("PCan "+ck.name+" "+c20CoqStrs(a.attrs)+" "+coqBool(ok),
+						desc{"probe": "CanCreate", "kind": ck.name, "account_attrs": a.attrs, "ok": ok})
+					w.Count("can_create_probes")
+					if ok {
+						w.Count("can_create_probes_allowed")
+						if created && len(ck.reqs) > 0 && ph == 1 && a.addr.Equals(accts[onlyExpiring].addr) {
+							w.Count("observation_allowed_on_expired_unswept_records_only")
+						}
+						if len(ck.reqs) > 0 && len(a.attrs) < len(ck.reqs) {
+							w.Count("can_create_allowed_with_fewer_attrs_than_reqs_" + ck.name)
+						}
+					}
+					if created && len(ck.reqs) > 0 {
+						probeKey(fmt.Sprintf("can/%v/%v", ck.reqs, a.attrs))
+					}
+				}
+			}
+		}
+
+		// ---- counter orders for the fill endpoints (the maker holds every attribute) ----
+		var makerBid, makerBid2, makerAsk uint64
+		var makerBidPrice, makerBid2Price, makerAskPrice c20Coin
 		assets := sdk.NewInt64Coin("asset", 10)
-		m0 := m // the market as created; m's flags follow the updates below
-		for phase := 0; phase < 2; phase++ {
-			if phase == 1 {
-				// ---- flip the accepting / user-settle flags through the real keeper, then probe again ----
-				if !created {
-					break
-				}
-				ao, us, ac := r.Intn(3) != 0, r.Intn(3) != 0, r.Intn(3) != 0
-				if ao == m.AccOrders && us == m.UserSettle && ac == m.AccCommit {
-					ao = !ao
-				}
-				ok := true
-				if ao != m.AccOrders {
-					ok = ok && try(func() error { return k.UpdateMarketAcceptingOrders(mctx, marketID, ao, "verif") }) == nil
-				}
-				if us != m.UserSettle {
-					ok = ok && try(func() error { return k.UpdateUserSettlementAllowed(mctx, marketID, us, "verif") }) == nil
-				}
-				if ac != m.AccCommit {
-					ok = ok && try(func() error { return k.UpdateMarketAcceptingCommitments(mctx, marketID, ac, "verif") }) == nil
-				}
-				if !ok {
-					w.Count("flag_update_failed")
-					break
-				}
-				m.AccOrders, m.UserSettle, m.AccCommit = ao, us, ac
-				addProbe("PFlags "+coqBool(ao)+" "+coqBool(us)+" "+coqBool(ac),
-					desc{"probe": "UpdateFlags", "accepting_orders": ao, "allow_user_settlement": us, "accepting_commitments": ac})
-				w.Count("flag_updates")
+		makeOrders := func() {
+			if !(created && m.AccOrders && makerBid == 0 && makerAsk == 0) {
+				return
 			}
-			if created && m.AccOrders && makerBid == 0 && makerAsk == 0 {
-				pd := c20PriceDenoms[r.Intn(len(c20PriceDenoms))]
-				if len(m.BuyerRatios) > 0 {
-					pd = m.BuyerRatios[r.Intn(len(m.BuyerRatios))].PD
-				}
-				makerBidPrice = c20Coin{pd, c20Big(r.Int63n(1_000_000) + 1000)}
-				bidFees := c20BuyerFees(r, m, makerBidPrice, true)
+			pd := c20PriceDenoms[r.Intn(len(c20PriceDenoms))]
+			if len(m.BuyerRatios) > 0 {
+				pd = m.BuyerRatios[r.Intn(len(m.BuyerRatios))].PD
+			}
+			mkBid := func(pd string) (uint64, c20Coin) {
+				price := c20Coin{pd, c20Big(r.Int63n(1_000_000) + 1000)}
+				bidFees := c20BuyerFees(r, m, price, true)
 				bmsg := &exchange.MsgCreateBidRequest{
-					BidOrder: exchange.BidOrder{MarketId: marketID, Buyer: maker.String(), Assets: assets, Price: makerBidPrice.sdk(),
+					BidOrder: exchange.BidOrder{MarketId: marketID, Buyer: maker.String(), Assets: assets, Price: price.sdk(),
 						BuyerSettlementFees: sdk.NewCoins(c20Coins(bidFees)...)},
 				}
 				if f := c20FlatChoice(r, m.CreateBid, true); f != nil {
@@ -915,52 +948,113 @@ func TestC20(t *testing.T) {
 					bmsg.OrderCreationFee = &c
 				}
 				if e := handle(mctx, bmsg); e == nil {
-					makerBid = c20LastOrder(app, mctx)
-				} else {
-					w.Count("maker_bid_not_created")
+					return c20LastOrder(app, mctx), price
 				}
-				makerAskPrice = c20Coin{pd, new(big.Int).Add(pow2(70), c20Big(r.Int63n(1000)))}
-				amsg := &exchange.MsgCreateAskRequest{
-					AskOrder: exchange.AskOrder{MarketId: marketID, Seller: maker.String(), Assets: assets, Price: makerAskPrice.sdk()},
-				}
-				if f := c20FlatChoice(r, m.SellerFlat, true); f != nil && len(m.SellerFlat) > 0 {
-					c := f.sdk()
-					amsg.AskOrder.SellerSettlementFlatFee = &c
-				}
-				if f := c20FlatChoice(r, m.CreateAsk, true); f != nil {
-					c := f.sdk()
-					amsg.OrderCreationFee = &c
-				}
-				if e := handle(mctx, amsg); e == nil {
-					makerAsk = c20LastOrder(app, mctx)
-				} else {
-					w.Count("maker_ask_not_created")
+				return 0, price
+			}
+			makerBid, makerBidPrice = mkBid(pd)
+			if makerBid == 0 {
+				w.Count("maker_bid_not_created")
+			}
+			// a second bid priced in another denom: filling both needs a seller ratio for both denoms
+			var others []string
+			for _, d := range c20PriceDenoms {
+				if d != pd {
+					others = append(others, d)
 				}
 			}
+			makerBid2, makerBid2Price = mkBid(others[r.Intn(len(others))])
+			makerAskPrice = c20Coin{pd, new(big.Int).Add(pow2(70), c20Big(r.Int63n(1000)))}
+			amsg := &exchange.MsgCreateAskRequest{
+				AskOrder: exchange.AskOrder{MarketId: marketID, Seller: maker.String(), Assets: assets, Price: makerAskPrice.sdk()},
+			}
+			if f := c20FlatChoice(r, m.SellerFlat, true); f != nil && len(m.SellerFlat) > 0 {
+				c := f.sdk()
+				amsg.AskOrder.SellerSettlementFlatFee = &c
+			}
+			if f := c20FlatChoice(r, m.CreateAsk, true); f != nil {
+				c := f.sdk()
+				amsg.OrderCreationFee = &c
+			}
+			if e := handle(mctx, amsg); e == nil {
+				makerAsk = c20LastOrder(app, mctx)
+			} else {
+				w.Count("maker_ask_not_created")
+			}
+		}
 
-			// ---- the message handlers ----
-			nAct := []int{24, 12}[phase]
+		// fill requests: which orders, and whether the request names them correctly
+		type fillTarget struct {
+			ids    []uint64
+			ok     bool
+			prices []c20Coin // bids: one coin per denom; asks: the total price
+			assets sdk.Coins
+			who    *c20Acct // non-nil: the request must come from this account (own order)
+			how    string
+		}
+		fillBidsTarget := func() fillTarget {
+			if makerBid == 0 {
+				return fillTarget{ids: []uint64{7777777}, ok: false, prices: []c20Coin{{"pcoin", c20Big(5)}}, assets: sdk.NewCoins(assets), how: "no such order"}
+			}
+			ft := fillTarget{ids: []uint64{makerBid}, ok: true, prices: []c20Coin{makerBidPrice}, assets: sdk.NewCoins(assets), how: "one bid"}
+			if makerBid2 != 0 && r.Intn(3) == 0 {
+				ft.ids = []uint64{makerBid, makerBid2}
+				ft.prices = c20FromCoins(sdk.NewCoins(makerBidPrice.sdk(), makerBid2Price.sdk()))
+				ft.assets = sdk.NewCoins(assets.Add(assets))
+				ft.how = "two bids priced in two denoms"
+				w.Count("fill_bids_two_price_denoms")
+			}
+			switch r.Intn(16) {
+			case 0:
+				ft.ids, ft.ok, ft.how = append(ft.ids, 7777777), false, "one order does not exist"
+			case 1:
+				if makerAsk != 0 {
+					ft.ids, ft.ok, ft.how = []uint64{makerAsk}, false, "the order is an ask"
+				}
+			case 2:
+				ft.assets, ft.ok, ft.how = sdk.NewCoins(sdk.NewInt64Coin("asset", 11)), false, "wrong total assets"
+			case 3:
+				ft.who, ft.ok, ft.how = &accts[makerIdx], false, "own order"
+			}
+			if !ft.ok {
+				w.Count("fill_requests_with_wrong_orders")
+			}
+			return ft
+		}
+		fillAsksTarget := func() fillTarget {
+			if makerAsk == 0 {
+				return fillTarget{ids: []uint64{7777777}, ok: false, prices: []c20Coin{{"pcoin", c20Big(5)}}, how: "no such order"}
+			}
+			ft := fillTarget{ids: []uint64{makerAsk}, ok: true, prices: []c20Coin{makerAskPrice}, how: "one ask"}
+			switch r.Intn(16) {
+			case 0:
+				ft.ids, ft.ok, ft.how = []uint64{makerAsk, 7777777}, false, "one order does not exist"
+			case 1:
+				if makerBid != 0 {
+					ft.ids, ft.ok, ft.how = []uint64{makerBid}, false, "the order is a bid"
+				}
+			case 2:
+				ft.prices = []c20Coin{{makerAskPrice.D, new(big.Int).Add(makerAskPrice.A, c20Big(1))}}
+				ft.ok, ft.how = false, "wrong total price"
+			case 3:
+				ft.who, ft.ok, ft.how = &accts[makerIdx], false, "own order"
+			}
+			if !ft.ok {
+				w.Count("fill_requests_with_wrong_orders")
+			}
+			return ft
+		}
+
+		// ---- the message handlers ----
+		probeHandlers := func(nAct int, round string) {
 			for ai := 0; ai < nAct; ai++ {
 				a := pickAcct()
-				good := func() bool { return r.Intn(9) != 0 }
-				toPtr := func(c *c20Coin) *sdk.Coin {
-					if c == nil {
-						return nil
-					}
-					s := c.sdk()
-					return &s
-				}
+				good := func() bool { return r.Intn(12) != 0 }
 				var msg sdk.Msg
 				var term, kind string
-				d := desc{"probe": "handler", "account_attrs": a.attrs}
+				d := desc{"probe": "handler"}
 				kinds := []string{"ask", "bid", "commit", "commit", "fillbids", "fillasks"}
 				kind = kinds[r.Intn(len(kinds))]
-				if kind == "fillbids" && makerBid == 0 && (created && m.AccOrders) {
-					kind = "ask"
-				}
-				if kind == "fillasks" && makerAsk == 0 && (created && m.AccOrders) {
-					kind = "bid"
-				}
 				switch kind {
 				case "ask":
 					var pd string
@@ -1014,33 +1108,33 @@ func TestC20(t *testing.T) {
 					term = "ACommit " + c20CoqOptCoin(cfee)
 					d["msg"], d["creation_fee"] = "MsgCommitFunds", c20OptStr(cfee)
 				case "fillbids":
+					ft := fillBidsTarget()
+					if ft.who != nil {
+						a = *ft.who
+					}
 					sflat := c20FlatChoice(r, m.SellerFlat, good())
 					if len(m.SellerFlat) == 0 {
 						sflat = nil
 					}
 					cfee := c20FlatChoice(r, m.CreateAsk, good())
-					id := makerBid
-					bp := makerBidPrice
-					if id == 0 { // rejected before the orders are looked up
-						id, bp = 77, c20Coin{"pcoin", c20Big(5)}
-					}
-					msg = &exchange.MsgFillBidsRequest{Seller: a.addr.String(), MarketId: marketID, TotalAssets: sdk.NewCoins(assets),
-						BidOrderIds: []uint64{id}, SellerSettlementFlatFee: toPtr(sflat), AskOrderCreationFee: toPtr(cfee)}
-					term = "AFillBids " + bp.coq() + " " + c20CoqOptCoin(sflat) + " " + c20CoqOptCoin(cfee)
-					d["msg"], d["bid_price"], d["seller_settlement_flat_fee"], d["creation_fee"] = "MsgFillBids", bp.String(), c20OptStr(sflat), c20OptStr(cfee)
+					msg = &exchange.MsgFillBidsRequest{Seller: a.addr.String(), MarketId: marketID, TotalAssets: ft.assets,
+						BidOrderIds: ft.ids, SellerSettlementFlatFee: toPtr(sflat), AskOrderCreationFee: toPtr(cfee)}
+					term = "AFillBids " + coqBool(ft.ok) + " " + c20CoqCoins(ft.prices) + " " + c20CoqOptCoin(sflat) + " " + c20CoqOptCoin(cfee)
+					d["msg"], d["bid_prices"], d["orders"], d["seller_settlement_flat_fee"], d["creation_fee"] = "MsgFillBids", c20StrCoins(ft.prices), ft.how, c20OptStr(sflat), c20OptStr(cfee)
 				case "fillasks":
-					id := makerAsk
-					ap := makerAskPrice
-					if id == 0 {
-						id, ap = 77, c20Coin{"pcoin", c20Big(5)}
+					ft := fillAsksTarget()
+					if ft.who != nil {
+						a = *ft.who
 					}
+					ap := ft.prices[0]
 					fees := c20BuyerFees(r, m, ap, good())
 					cfee := c20FlatChoice(r, m.CreateBid, good())
 					msg = &exchange.MsgFillAsksRequest{Buyer: a.addr.String(), MarketId: marketID, TotalPrice: ap.sdk(),
-						AskOrderIds: []uint64{id}, BuyerSettlementFees: sdk.NewCoins(c20Coins(fees)...), BidOrderCreationFee: toPtr(cfee)}
-					term = "AFillAsks " + ap.coq() + " " + c20CoqCoins(fees) + " " + c20CoqOptCoin(cfee)
-					d["msg"], d["total_price"], d["buyer_settlement_fees"], d["creation_fee"] = "MsgFillAsks", ap.String(), c20StrCoins(fees), c20OptStr(cfee)
+						AskOrderIds: ft.ids, BuyerSettlementFees: sdk.NewCoins(c20Coins(fees)...), BidOrderCreationFee: toPtr(cfee)}
+					term = "AFillAsks " + coqBool(ft.ok) + " " + ap.coq() + " " + c20CoqCoins(fees) + " " + c20CoqOptCoin(cfee)
+					d["msg"], d["total_price"], d["orders"], d["buyer_settlement_fees"], d["creation_fee"] = "MsgFillAsks", ap.String(), ft.how, c20StrCoins(fees), c20OptStr(cfee)
 				}
+				d["account_attrs"] = a.attrs
 				cctx, _ := mctx.CacheContext()
 				e := handle(cctx, msg)
 				d["ok"] = e == nil
@@ -1052,23 +1146,517 @@ func TestC20(t *testing.T) {
 					w.Count("handler_" + kind + "_accepted")
 				}
 				if created {
-					probeKey(fmt.Sprintf("act/%d/%d/%d", mi, phase, ai))
+					probeKey(fmt.Sprintf("act/%d/%s/%d", mi, round, ai))
 				}
 			}
-		} // phase
+		}
+
+		// ---- requests that ValidateBasic must refuse although the fees would be enough: the same
+		// denom twice, a zero coin, coins out of order, a zero / negative single fee, a zero price ----
+		probeMalformed := func(n int) {
+			a := accts[0]
+			for i := 0; i < n; i++ {
+				var pd string
+				if len(m.BuyerRatios) > 0 {
+					pd = m.BuyerRatios[r.Intn(len(m.BuyerRatios))].PD
+				} else {
+					pd = c20PriceDenoms[r.Intn(len(c20PriceDenoms))]
+				}
+				price := c20Coin{pd, c20Big(r.Int63n(1_000_000) + 1)}
+				fees := c20BuyerFees(r, m, price, true)
+				cfee := c20FlatChoice(r, m.CreateBid, true)
+				var shape string
+				switch r.Intn(7) {
+				case 0: // split one coin in two of the same denom, or repeat it
+					if len(fees) > 0 {
+						j := r.Intn(len(fees))
+						c := fees[j]
+						if c.A.Cmp(c20Big(1)) > 0 && r.Intn(2) == 0 {
+							h := new(big.Int).Rsh(c.A, 1)
+							fees[j].A = new(big.Int).Sub(c.A, h)
+							c.A = h
+						}
+						fees = append(fees[:j+1], append([]c20Coin{c}, fees[j+1:]...)...)
+					} else {
+						fees = []c20Coin{{"acoin", c20Big(1)}, {"acoin", c20Big(1)}}
+					}
+					shape = "a denom twice"
+				case 1:
+					fees = append([]c20Coin{{"aaaa", c20Big(0)}}, fees...)
+					shape = "a zero coin"
+				case 2:
+					switch len(fees) {
+					case 0:
+						fees = []c20Coin{{"bcoin", c20Big(2)}, {"aaaa", c20Big(3)}}
+					case 1:
+						fees = append(fees, c20Coin{"aaaa", c20Big(3)})
+					default:
+						fees[0], fees[len(fees)-1] = fees[len(fees)-1], fees[0]
+					}
+					shape = "coins out of order"
+				case 3:
+					cfee = &c20Coin{"acoin", c20Big(-1)}
+					if len(m.CreateBid) > 0 {
+						cfee.D = m.CreateBid[0].D
+					}
+					shape = "negative creation fee"
+				case 4:
+					price.A = c20Big(0)
+					shape = "zero price"
+				case 5: // MsgCreateAsk with a zero seller settlement flat fee
+					sf := &c20Coin{"acoin", c20Big(0)}
+					acf := c20FlatChoice(r, m.CreateAsk, true)
+					ap := c20Coin{pd, c20Big(r.Int63n(1_000_000_000) + 1000)}
+					msg := &exchange.MsgCreateAskRequest{
+						AskOrder:         exchange.AskOrder{MarketId: marketID, Seller: a.addr.String(), Assets: assets, Price: ap.sdk(), SellerSettlementFlatFee: toPtr(sf)},
+						OrderCreationFee: toPtr(acf)}
+					cctx, _ := mctx.CacheContext()
+					e := handle(cctx, msg)
+					addProbe("PAct "+c20CoqStrs(a.attrs)+" (ACreateAsk "+ap.coq()+" "+c20CoqOptCoin(sf)+" "+c20CoqOptCoin(acf)+") "+coqBool(e == nil),
+						desc{"probe": "handler", "malformed": "zero seller settlement flat fee", "msg": "MsgCreateAsk", "price": ap.String(), "creation_fee": c20OptStr(acf), "account_attrs": a.attrs, "ok": e == nil})
+					w.Count("malformed_requests")
+					if e == nil {
+						w.Count("malformed_requests_accepted")
+					}
+					continue
+				default: // a zero creation fee is a valid coin for orders and commitments, not for fills
+					cfee = &c20Coin{"acoin", c20Big(0)}
+					shape = "zero creation fee"
+				}
+				var msg sdk.Msg
+				var term string
+				if makerAsk != 0 && r.Intn(3) == 0 && shape != "zero price" {
+					fees2 := fees
+					if shape == "zero creation fee" || shape == "negative creation fee" {
+						fees2 = c20BuyerFees(r, m, makerAskPrice, true)
+					}
+					msg = &exchange.MsgFillAsksRequest{Buyer: a.addr.String(), MarketId: marketID, TotalPrice: makerAskPrice.sdk(),
+						AskOrderIds: []uint64{makerAsk}, BuyerSettlementFees: sdk.Coins(c20Coins(fees2)), BidOrderCreationFee: toPtr(cfee)}
+					term = "AFillAsks true " + makerAskPrice.coq() + " " + c20CoqCoins(fees2) + " " + c20CoqOptCoin(cfee)
+					fees = fees2
+				} else {
+					msg = &exchange.MsgCreateBidRequest{
+						BidOrder:         exchange.BidOrder{MarketId: marketID, Buyer: a.addr.String(), Assets: assets, Price: price.sdk(), BuyerSettlementFees: sdk.Coins(c20Coins(fees))},
+						OrderCreationFee: toPtr(cfee)}
+					term = "ACreateBid " + price.coq() + " " + c20CoqCoins(fees) + " " + c20CoqOptCoin(cfee)
+				}
+				cctx, _ := mctx.CacheContext()
+				e := handle(cctx, msg)
+				addProbe("PAct "+c20CoqStrs(a.attrs)+" ("+term+") "+coqBool(e == nil),
+					desc{"probe": "handler", "malformed": shape, "msg": fmt.Sprintf("%T", msg), "price": price.String(), "buyer_settlement_fees": c20StrCoins(fees),
+						"creation_fee": c20OptStr(cfee), "account_attrs": a.attrs, "ok": e == nil})
+				w.Count("malformed_requests")
+				w.Count("malformed_" + strings.ReplaceAll(shape, " ", "_"))
+				if e == nil {
+					w.Count("malformed_requests_accepted")
+				}
+				if created {
+					probeKey(fmt.Sprintf("malformed/%d/%d", mi, len(probes)))
+				}
+			}
+		}
+
+		// ---- OrderFeeCalc, and requests that pay exactly what it quotes / one unit less ----
+		quotedAct := func(claim string, a c20Acct, msg sdk.Msg, term string, d desc) bool {
+			cctx, _ := mctx.CacheContext()
+			e := handle(cctx, msg)
+			d["probe"], d["account_attrs"], d["ok"] = "handler, fees from the quote", a.attrs, e == nil
+			if claim == "" {
+				d["claim"] = "none (another option may cover it)"
+				addProbe("PAct "+c20CoqStrs(a.attrs)+" ("+term+") "+coqBool(e == nil), d)
+			} else {
+				d["claim"] = claim
+				addProbe("PQuoted "+claim+" "+c20CoqStrs(a.attrs)+" ("+term+") "+coqBool(e == nil), d)
+			}
+			w.Count("quoted_requests")
+			w.Count("quoted_requests_" + map[string]string{"": "one_coin_of_two_lowered", "QExact": "exact", "QExactZero": "exact_zero_ratio_option", "QBelowSingle": "one_below"}[claim])
+			if e == nil {
+				w.Count("quoted_requests_accepted")
+				w.Count("quoted_requests_" + map[string]string{"": "one_coin_of_two_lowered", "QExact": "exact", "QExactZero": "exact_zero_ratio_option", "QBelowSingle": "one_below"}[claim] + "_accepted")
+			}
+			if created {
+				probeKey(fmt.Sprintf("quoted/%d/%d", mi, len(probes)))
+			}
+			return e == nil
+		}
+		probeQuotes := func(nAskQ, nBidQ int) {
+			for qi := 0; qi < nBidQ; qi++ {
+				var pd string
+				if len(m.BuyerRatios) > 0 && r.Intn(8) != 0 {
+					pd = m.BuyerRatios[r.Intn(len(m.BuyerRatios))].PD
+				} else {
+					pd = c20PriceDenoms[r.Intn(len(c20PriceDenoms))]
+				}
+				price := c20Coin{pd, c20Amount(r)}
+				fill := makerAsk != 0 && qi == 0 && r.Intn(2) == 0
+				if fill {
+					price = makerAskPrice
+				}
+				var resp *exchange.QueryOrderFeeCalcResponse
+				e := try(func() error {
+					var e2 error
+					resp, e2 = qs.OrderFeeCalc(mctx, &exchange.QueryOrderFeeCalcRequest{BidOrder: &exchange.BidOrder{MarketId: marketID,
+						Buyer: accts[0].addr.String(), Assets: assets, Price: price.sdk()}})
+					return e2
+				})
+				ok := e == nil && resp != nil
+				var C, F, X []sdk.Coin
+				if ok {
+					C, F, X = resp.CreationFeeOptions, resp.SettlementFlatFeeOptions, resp.SettlementRatioFeeOptions
+				}
+				addProbe("PQuoteBid "+price.coq()+" "+c20CoqQuote(ok, C, F, X),
+					desc{"probe": "OrderFeeCalc", "side": "bid", "price": price.String(), "ok": ok, "creation_fee_options": c20StrSdk(C),
+						"settlement_flat_fee_options": c20StrSdk(F), "settlement_ratio_fee_options": c20StrSdk(X)})
+				w.Count("quotes_bid")
+				if !ok {
+					w.Count("quotes_bid_failed")
+					continue
+				}
+				if created && len(F)+len(X) > 0 {
+					probeKey(fmt.Sprintf("quotebid/%v/%v/%s", c20StrCoins(m.BuyerFlat), m.BuyerRatios, price))
+				}
+				send := func(claim string, a c20Acct, fees sdk.Coins, cfee *sdk.Coin, how string) bool {
+					d := desc{"price": price.String(), "buyer_settlement_fees": c20StrSdk(fees), "creation_fee": c20SdkOptStr(cfee), "derived": how}
+					if fill {
+						msg := &exchange.MsgFillAsksRequest{Buyer: a.addr.String(), MarketId: marketID, TotalPrice: price.sdk(),
+							AskOrderIds: []uint64{makerAsk}, BuyerSettlementFees: fees, BidOrderCreationFee: cfee}
+						d["msg"] = "MsgFillAsks"
+						return quotedAct(claim, a, msg, "AFillAsks true "+price.coq()+" "+c20CoqSdkCoins(fees)+" "+c20CoqOptSdk(cfee), d)
+					}
+					msg := &exchange.MsgCreateBidRequest{
+						BidOrder:         exchange.BidOrder{MarketId: marketID, Buyer: a.addr.String(), Assets: assets, Price: price.sdk(), BuyerSettlementFees: fees},
+						OrderCreationFee: cfee}
+					d["msg"] = "MsgCreateBid"
+					return quotedAct(claim, a, msg, "ACreateBid "+price.coq()+" "+c20CoqSdkCoins(fees)+" "+c20CoqOptSdk(cfee), d)
+				}
+				nf, nx := len(F), len(X)
+				if nf == 0 {
+					nf = 1
+				}
+				if nx == 0 {
+					nx = 1
+				}
+				ci := r.Intn(8)
+				for fi := 0; fi < nf; fi++ {
+					for xi := 0; xi < nx; xi++ {
+						f, x, c := c20OptPtr(F, fi), c20OptPtr(X, xi), c20OptPtr(C, ci)
+						ci++
+						if fill && c != nil && c.IsZero() {
+							continue
+						}
+						a := accts[0]
+						if r.Intn(5) == 0 {
+							a = pickAcct()
+						}
+						fees := c20Offer(f, x)
+						claim := "QExact"
+						if x != nil && x.IsZero() {
+							w.Count("quoted_ratio_option_is_zero")
+							claim = "QExactZero"
+						}
+						send(claim, a, fees, c, "exactly the quoted options")
+						// one unit less
+						switch len(fees) {
+						case 1:
+							low := c20MinusOne(&fees[0])
+							var lf sdk.Coins
+							if low != nil {
+								lf = sdk.Coins{*low}
+							}
+							send("QBelowSingle", a, lf, c, "the one settlement coin lowered by one")
+						case 2:
+							j := r.Intn(2)
+							lf := sdk.Coins{fees[0], fees[1]}
+							if low := c20MinusOne(&fees[j]); low != nil {
+								lf[j] = *low
+							} else {
+								lf = sdk.Coins{fees[1-j]}
+							}
+							send("", a, lf, c, "one of the two settlement coins lowered by one")
+						}
+						if c != nil && !c.IsZero() && r.Intn(2) == 0 {
+							send("QBelowSingle", a, fees, c20MinusOne(c), "the creation fee lowered by one")
+						}
+					}
+				}
+			}
+			for qi := 0; qi < nAskQ; qi++ {
+				var pd string
+				if len(m.SellerRatios) > 0 && r.Intn(8) != 0 {
+					pd = m.SellerRatios[r.Intn(len(m.SellerRatios))].PD
+				} else {
+					pd = c20PriceDenoms[r.Intn(len(c20PriceDenoms))]
+				}
+				price := c20Coin{pd, c20Amount(r)}
+				var resp *exchange.QueryOrderFeeCalcResponse
+				e := try(func() error {
+					var e2 error
+					resp, e2 = qs.OrderFeeCalc(mctx, &exchange.QueryOrderFeeCalcRequest{AskOrder: &exchange.AskOrder{MarketId: marketID,
+						Seller: accts[0].addr.String(), Assets: assets, Price: price.sdk()}})
+					return e2
+				})
+				ok := e == nil && resp != nil
+				var C, F, X []sdk.Coin
+				if ok {
+					C, F, X = resp.CreationFeeOptions, resp.SettlementFlatFeeOptions, resp.SettlementRatioFeeOptions
+				}
+				addProbe("PQuoteAsk "+price.coq()+" "+c20CoqQuote(ok, C, F, X),
+					desc{"probe": "OrderFeeCalc", "side": "ask", "price": price.String(), "ok": ok, "creation_fee_options": c20StrSdk(C),
+						"settlement_flat_fee_options": c20StrSdk(F), "settlement_ratio_fee_options": c20StrSdk(X)})
+				w.Count("quotes_ask")
+				if !ok {
+					w.Count("quotes_ask_failed")
+					continue
+				}
+				if created && len(F)+len(X) > 0 {
+					probeKey(fmt.Sprintf("quoteask/%v/%v/%s", c20StrCoins(m.SellerFlat), m.SellerRatios, price))
+				}
+				nf := len(F)
+				if nf == 0 {
+					nf = 1
+				}
+				for fi := 0; fi < nf; fi++ {
+					f, c := c20OptPtr(F, fi), c20OptPtr(C, r.Intn(8))
+					a := accts[0]
+					// the fees taken out of the price: the flat fee when paid in the price denom + the quoted ratio fee
+					out := sdkmath.ZeroInt()
+					if f != nil && f.Denom == pd {
+						out = out.Add(f.Amount)
+					}
+					if len(X) > 0 {
+						out = out.Add(X[0].Amount)
+					}
+					send := func(claim string, sf, cf *sdk.Coin, how string) {
+						msg := &exchange.MsgCreateAskRequest{
+							AskOrder:         exchange.AskOrder{MarketId: marketID, Seller: a.addr.String(), Assets: assets, Price: price.sdk(), SellerSettlementFlatFee: sf},
+							OrderCreationFee: cf}
+						quotedAct(claim, a, msg, "ACreateAsk "+price.coq()+" "+c20CoqOptSdk(sf)+" "+c20CoqOptSdk(cf),
+							desc{"msg": "MsgCreateAsk", "price": price.String(), "seller_settlement_flat_fee": c20SdkOptStr(sf), "creation_fee": c20SdkOptStr(cf),
+								"fees_taken_out_of_the_price": out.String(), "derived": how})
+					}
+					if price.sdk().Amount.GT(out) {
+						send("QExact", f, c, "exactly the quoted options; the price exceeds the fees taken out of it")
+					} else {
+						send("", f, c, "exactly the quoted options; the price does not exceed the fees taken out of it")
+						w.Count("quoted_asks_price_not_above_fees")
+					}
+					if f != nil {
+						send("QBelowSingle", c20MinusOne(f), c, "the seller settlement flat fee lowered by one")
+					}
+					if c != nil && r.Intn(2) == 0 {
+						send("QBelowSingle", f, c20MinusOne(c), "the creation fee lowered by one")
+					}
+				}
+			}
+		}
+
+		// ---- what the keeper reports of the configuration ----
+		probeTables := func() {
+			if !created {
+				return
+			}
+			tabs := []struct {
+				name string
+				l    []sdk.Coin
+			}{
+				{"KCreateAsk", k.GetCreateAskFlatFees(mctx, marketID)}, {"KCreateBid", k.GetCreateBidFlatFees(mctx, marketID)},
+				{"KCreateCom", k.GetCreateCommitmentFlatFees(mctx, marketID)}, {"KSellerFlat", k.GetSellerSettlementFlatFees(mctx, marketID)},
+				{"KBuyerFlat", k.GetBuyerSettlementFlatFees(mctx, marketID)},
+			}
+			for _, tb := range tabs {
+				addProbe("PTable "+tb.name+" "+c20CoqCoins(c20FromCoins(tb.l)), desc{"probe": "GetFlatFees", "kind": tb.name, "options": c20StrSdk(tb.l)})
+			}
+			sr, br := c20FromRatios(k.GetSellerSettlementRatios(mctx, marketID)), c20FromRatios(k.GetBuyerSettlementRatios(mctx, marketID))
+			addProbe("PRatios true "+c20CoqRatios(sr), desc{"probe": "GetSellerSettlementRatios", "ratios": c20StrRatios(sr)})
+			addProbe("PRatios false "+c20CoqRatios(br), desc{"probe": "GetBuyerSettlementRatios", "ratios": c20StrRatios(br)})
+			addProbe("PBips "+zI64(int64(k.GetCommitmentSettlementBips(mctx, marketID))), desc{"probe": "GetCommitmentSettlementBips"})
+			for _, rk := range []struct {
+				name string
+				l    []string
+			}{{"RAsk", k.GetReqAttrsAsk(mctx, marketID)}, {"RBid", k.GetReqAttrsBid(mctx, marketID)}, {"RCom", k.GetReqAttrsCommitment(mctx, marketID)}} {
+				addProbe("PReqs "+rk.name+" "+c20CoqStrs(rk.l), desc{"probe": "GetReqAttrs", "kind": rk.name, "stored": rk.l})
+			}
+			w.Count("table_readbacks")
+		}
+
+		// ---- CommitmentSettlementFeeCalc and the fee step of MsgMarketCommitmentSettle ----
+		probeCommitmentQuote := func(n int) {
+			for i := 0; i < n; i++ {
+				src, dst := accts[0], accts[2]
+				denoms := []string{feeDenom, "interm", "ccoin", "dcoin"}
+				var inputs sdk.Coins
+				for _, d := range denoms {
+					if r.Intn(2) == 0 {
+						inputs = inputs.Add(sdk.NewCoin(d, sdkmath.NewIntFromBigInt(c20Amount(r))))
+					}
+				}
+				if r.Intn(10) == 0 {
+					inputs = nil
+				}
+				var navs []exchange.NetAssetPrice
+				conv := m.Interm
+				if conv != "" {
+					for _, d := range []string{"ccoin", "dcoin", "interm"} {
+						if d != conv && r.Intn(5) != 0 {
+							navs = append(navs, exchange.NetAssetPrice{Assets: sdk.NewCoin(d, sdkmath.NewIntFromBigInt(c20Amount(r))), Price: sdk.NewCoin(conv, sdkmath.NewIntFromBigInt(c20Amount(r)))})
+						}
+					}
+					if conv != feeDenom && r.Intn(6) != 0 {
+						navs = append(navs, exchange.NetAssetPrice{Assets: sdk.NewCoin(conv, sdkmath.NewIntFromBigInt(c20Amount(r))), Price: sdk.NewCoin(feeDenom, sdkmath.NewIntFromBigInt(c20Amount(r)))})
+					}
+				}
+				var aa []exchange.AccountAmount
+				if len(inputs) > 0 {
+					aa = []exchange.AccountAmount{{Account: src.addr.String(), Amount: inputs}}
+				}
+				var ab []exchange.AccountAmount
+				if len(inputs) > 0 {
+					ab = []exchange.AccountAmount{{Account: dst.addr.String(), Amount: inputs}}
+				}
+				req := &exchange.MsgMarketCommitmentSettleRequest{Admin: maker.String(), MarketId: marketID, Inputs: aa, Outputs: ab, Navs: navs}
+				var resp *exchange.QueryCommitmentSettlementFeeCalcResponse
+				e := try(func() error {
+					var e2 error
+					resp, e2 = qs.CommitmentSettlementFeeCalc(mctx, &exchange.QueryCommitmentSettlementFeeCalcRequest{Settlement: req})
+					return e2
+				})
+				obs := "None"
+				if e == nil && resp != nil {
+					if len(resp.ExchangeFees) == 0 {
+						obs = "(Some None)"
+					} else {
+						obs = "(Some (Some " + zInt(sdk.Coins(resp.ExchangeFees).AmountOf(feeDenom)) + "))"
+					}
+				}
+				// the settlement itself: give the source the commitment, settle through the keeper;
+				// when that works, the whole message goes through the real handler
+				settle := "None"
+				if created && len(inputs) > 0 {
+					settle = c20TrySettle(app, mctx, handle, marketID, maker, src, dst, inputs, req)
+				}
+				addProbe("PComQuote "+coqStr(feeDenom)+" "+c20CoqNavs(navs)+" "+c20CoqSdkCoins(inputs)+" "+obs+" "+settle,
+					desc{"probe": "CommitmentSettlementFeeCalc", "inputs": inputs.String(), "navs": fmt.Sprint(navs), "quote": obs, "settle_message": settle,
+						"bips": m.Bips, "intermediary_denom": m.Interm})
+				w.Count("commitment_quotes")
+				if obs != "None" {
+					w.Count("commitment_quotes_ok")
+				}
+				if strings.HasPrefix(obs, "(Some (Some") {
+					w.Count("commitment_quotes_with_fee")
+					probeKey(fmt.Sprintf("comquote/%d/%d", mi, i))
+				}
+				if settle != "None" {
+					w.Count("commitment_settle_messages")
+					if settle == "(Some true)" {
+						w.Count("commitment_settle_messages_accepted")
+					}
+				}
+			}
+		}
+
+		// =========================== round 0: the market as created ===========================
+		probeFlats(false)
+		probeBuyer(14)
+		probeAskPrice(8)
+		probeCan(true)
+		makeOrders()
+		probeHandlers(24, "created")
+		probeMalformed(4)
+		probeQuotes(1, 2)
+
+		// ---- flip the accepting / user-settle flags through the real keeper, then probe again ----
+		flipFlags := func() bool {
+			ao, us, ac := r.Intn(5) != 0, r.Intn(5) != 0, r.Intn(5) != 0
+			if ao == m.AccOrders && us == m.UserSettle && ac == m.AccCommit {
+				ao = !ao
+			}
+			ok := true
+			if ao != m.AccOrders {
+				ok = ok && try(func() error { return k.UpdateMarketAcceptingOrders(mctx, marketID, ao, "verif") }) == nil
+			}
+			if us != m.UserSettle {
+				ok = ok && try(func() error { return k.UpdateUserSettlementAllowed(mctx, marketID, us, "verif") }) == nil
+			}
+			if ac != m.AccCommit {
+				ok = ok && try(func() error { return k.UpdateMarketAcceptingCommitments(mctx, marketID, ac, "verif") }) == nil
+			}
+			if !ok {
+				w.Count("flag_update_failed")
+				return false
+			}
+			m.AccOrders, m.UserSettle, m.AccCommit = ao, us, ac
+			addProbe("PFlags "+coqBool(ao)+" "+coqBool(us)+" "+coqBool(ac),
+				desc{"probe": "UpdateFlags", "accepting_orders": ao, "allow_user_settlement": us, "accepting_commitments": ac})
+			w.Count("flag_updates")
+			return true
+		}
+		if created && flipFlags() {
+			makeOrders()
+			probeHandlers(12, "flags")
+		}
+
+		// =========================== configuration changes ===========================
+		// MsgGovManageFees / MsgMarketManageReqAttrs / flag updates in random order, each followed
+		// by what the keeper reports and by probes generated against the changed market.
+		if created {
+			nRounds := 3 + r.Intn(2)
+			for rd := 0; rd < nRounds; rd++ {
+				switch r.Intn(7) {
+				case 0, 1, 2:
+					fm := c20GenFeeMsg(r, m, r.Intn(4) != 0)
+					cctx, write := mctx.CacheContext()
+					e := handle(cctx, fm.sdk(authority, marketID))
+					if e == nil {
+						write()
+					}
+					d := desc(fm.desc())
+					d["probe"], d["ok"] = "MsgGovManageFees", e == nil
+					addProbe("PFees "+fm.coq()+" "+coqBool(e == nil), d)
+					w.Count("fee_updates")
+					w.Count("fee_updates_" + strings.ReplaceAll(fm.Shape, " ", "_"))
+					if e == nil {
+						w.Count("fee_updates_accepted")
+					}
+					probeKey(fmt.Sprintf("fees/%d/%d", mi, rd))
+				case 3, 4, 5:
+					am := c20GenAttrMsg(r, m, r.Intn(3) != 0)
+					cctx, write := mctx.CacheContext()
+					e := handle(cctx, am.sdk(maker.String(), stranger.String(), marketID))
+					if e == nil {
+						write()
+					}
+					d := desc(am.desc())
+					d["probe"], d["ok"] = "MsgMarketManageReqAttrs", e == nil
+					addProbe("PAttrs "+am.coq()+" "+coqBool(e == nil), d)
+					w.Count("req_attr_updates")
+					w.Count("req_attr_updates_" + strings.ReplaceAll(strings.ReplaceAll(am.Shape, " ", "_"), ",", ""))
+					if e == nil {
+						w.Count("req_attr_updates_accepted")
+					}
+					probeKey(fmt.Sprintf("attrs/%d/%d", mi, rd))
+				default:
+					flipFlags()
+				}
+				m = c20ReadMarket(app, mctx, marketID, m.Interm)
+				probeTables()
+				probeFlats(true)
+				probeBuyer(5)
+				probeAskPrice(3)
+				probeCan(false)
+				makeOrders()
+				probeHandlers(8, fmt.Sprintf("round%d", rd))
+				probeMalformed(1)
+				probeQuotes(1, 1)
+			}
+			w.CountN("config_rounds", int64(nRounds))
+		}
+		probeCommitmentQuote(2)
 
 		// ---- sequences: the same account acts again after it already has a commitment / orders ----
 		// Successful requests are kept (sctx), so later requests of the sequence meet the records
 		// the earlier ones left.  The admission rule does not depend on them.
 		if created {
 			sctx, _ := mctx.CacheContext()
-			toPtr := func(c *c20Coin) *sdk.Coin {
-				if c == nil {
-					return nil
-				}
-				sc := c.sdk()
-				return &sc
-			}
 			seqProbe := func(a c20Acct, msg sdk.Msg, term string, d desc, tag string) bool {
 				cctx, write := sctx.CacheContext()
 				e := handle(cctx, msg)
@@ -1207,6 +1795,27 @@ func TestC20(t *testing.T) {
 	}
 	w.Stats["distinct_nontrivial_probes"] = int64(len(probeKeys))
 	w.Flush(t)
+}
+
+// c20TrySettle gives src a commitment of the inputs (Keeper.AddCommitment: when the market does
+// not let src commit, nothing is observed), checks that the settlement itself works at keeper
+// level and then sends the whole MsgMarketCommitmentSettle through the real handler.
+// Returns the Coq term of the observation: None (not observed) / (Some true) / (Some false).
+func c20TrySettle(app *simapp.App, mctx sdk.Context, handle func(sdk.Context, sdk.Msg) error, marketID uint32,
+	maker sdk.AccAddress, src, dst c20Acct, inputs sdk.Coins, req *exchange.MsgMarketCommitmentSettleRequest) string {
+	k := app.ExchangeKeeper
+	sctx, _ := mctx.CacheContext()
+	// AddCommitment checks the flag and the attributes; when src may not commit nothing is observed
+	if e := try(func() error { return k.AddCommitment(sctx, marketID, src.addr, inputs, "") }); e != nil {
+		return "None"
+	}
+	kctx, _ := sctx.CacheContext()
+	if e := try(func() error { return k.SettleCommitments(kctx, req) }); e != nil {
+		return "None"
+	}
+	hctx, _ := sctx.CacheContext()
+	e := handle(hctx, req)
+	return "(Some " + coqBool(e == nil) + ")"
 }
 
 // c20LastOrder returns the highest order id in the store (the order just created).
